@@ -349,17 +349,20 @@ where
     fn eq(&self, other: &Self) -> bool {
         self.version == other.version
             && self.status == other.status
-            && self.headers.iter().zip(other.headers.iter()).all(
-                |((lhs_name, lhs_values), (rhs_name, rhs_values))| {
-                    lhs_name == rhs_name
-                        && lhs_values
-                            .iter()
-                            .zip(rhs_values.iter())
-                            .all(|(lhs, rhs)| lhs == rhs)
-                },
-            )
+            && headers_eq(&self.headers, &other.headers)
             && self.body == other.body
     }
+}
+
+/// Two sets of headers are equal when they hold the same names, each with the same values
+/// in the same order. `Headers` is a hash map, so the two are compared as maps: the order in
+/// which either of them happens to iterate plays no part.
+fn headers_eq(lhs: &Headers, rhs: &Headers) -> bool {
+    lhs.iter().count() == rhs.iter().count()
+        && lhs.iter().all(|(name, lhs_values)| {
+            rhs.get(name)
+                .is_some_and(|rhs_values| lhs_values.iter().eq(rhs_values.iter()))
+        })
 }
 
 impl<Body> Eq for Response<Body> where Body: Eq {}
